@@ -174,13 +174,13 @@ pub fn class_names(c: u32) -> String {
 
 
 /// Parameters of the serialized payload of every DATA submessage of a datagram that carries a PL_CDR parameter
-/// list (discovery data): (writer entity id, [(parameter id, value bytes)]). Little-endian encapsulations only
+/// list (discovery data): (writer entity id, sequence number, [(parameter id, value bytes)]). Little-endian encapsulations only
 /// (what dust-dds sends). Used by C37 to see what was announced.
-pub fn discovery_parameters(d: &[u8]) -> Vec<(u32, Vec<(u16, Vec<u8>)>)> {
+pub fn discovery_parameters(d: &[u8]) -> Vec<(u32, i64, Vec<(u16, Vec<u8>)>)> {
     let mut out = vec![];
     let p = parse(d);
     for (sub, (s, l)) in p.subs.iter().zip(p.spans.iter()) {
-        let Sub::Data { writer, flags, .. } = sub else { continue };
+        let Sub::Data { writer, flags, sn, .. } = sub else { continue };
         let b = &d[*s + 4..(*s + *l).min(d.len())];
         if b.len() < 24 || flags & 1 == 0 {
             continue;
@@ -212,7 +212,7 @@ pub fn discovery_parameters(d: &[u8]) -> Vec<(u32, Vec<(u16, Vec<u8>)>)> {
             continue; // not PL_CDR_LE
         }
         let (params, _) = read_pl(off + 4, b);
-        out.push((*writer, params));
+        out.push((*writer, *sn, params));
     }
     out
 }
